@@ -9,7 +9,16 @@ def run(ctx):
     if not ids:
         raise vlib.Machinery("vacuous: no parrot with a GREASE ECH extension in the dumped specs")
     n = 64 if ctx.quick else 512
-    hel = [e for e in ctx.drv("hellos", {"cases": [{"id": i, "sni": "example.com", "n": n, "omit": True} for i in ids]}) if e["ev"] == "Hello"]
+    # server names of every length class: nothing about the extension may depend on the name (lengths up to the DNS limit)
+    def name(k):
+        labels, left = [], k - 4
+        while left > 0:
+            labels.append("a" * min(60, left))
+            left -= 61
+        return ".".join(labels) + ".com" if k > 4 else "a.io"
+    snis = ["example.com"] + [name(k) for k in (96, 128, 200, 253)]
+    hel = [e for e in ctx.drv("hellos", {"cases": [{"id": i, "sni": sn, "n": n if sn == "example.com" else max(8, n // 8), "omit": True}
+                                                   for i in ids for sn in snis]}) if e["ev"] == "Hello"]
     notsent = [e for e in hel if not e["sent"]]
     if notsent:
         raise vlib.Machinery("hello not sent: %r" % notsent[0]["err"])
